@@ -264,8 +264,21 @@ theorem legendre_spec (z : L4) (a : Nat) (hz : z.ok) (hzr : z.val < R) (rz : Cio
   rw [m0] at hzero; rw [m1] at hone
   simp only [hzero, hone]
 
+/-- `IsUint64` ⇔ the raw 256-bit value of the limbs fits in one word (used by `partitionScalars` on the
+scalar in regular form: zero-skip and the small-value count) -/
+theorem isUint64_iff (z : L4) (hz : z.ok) : go_IsUint64 z = true ↔ z.val < W := by
+  obtain ⟨z0, z1, z2, z3⟩ := z
+  have e : go_IsUint64 ⟨z0, z1, z2, z3⟩ = decide (((z3 ||| z2) ||| z1) = 0) := rfl
+  rw [e, decide_eq_true_eq]
+  simp only [Nat.or_eq_zero_iff]
+  unfold L4.ok L4.val W at *
+  simp only at *
+  constructor
+  · rintro ⟨⟨h3, h2⟩, h1⟩; subst h1 h2 h3; omega
+  · intro h; omega
+
 /-- nothing emitted by the translator is left without a theorem -/
-theorem coverage : Gen.FrMisc.translated = ["Set", "SetOne", "Equal", "IsZero", "Cmp", "LexicographicallyLargest", "Exp", "Legendre"] := by
+theorem coverage : Gen.FrMisc.translated = ["Set", "SetOne", "Equal", "IsZero", "IsUint64", "Cmp", "LexicographicallyLargest", "Exp", "Legendre"] := by
   decide
 
 end GoIpa.Tie.FrMisc
